@@ -1,8 +1,8 @@
 CONSTANTS
   Alphabet <- AlphaTags
   MaxLen = 1
-  MaxMsgs = 1
-  MaxOps = 3
+  MaxMsgs = 2
+  MaxOps = 2
   MaxHandles = 1
   OutLens <- Out16_32
   LenW = 8
